@@ -55,6 +55,14 @@ def referencedTrees (m : CMap) : List Nat :=
 /-- `ckiCtrlr.cleanup`: tree files no loaded chunk refers to are removed -/
 def cleanupTrees (m : CMap) (trees : List Nat) : List Nat := trees.filter (fun t => (referencedTrees m).contains t)
 
+/-- `cindex.init` after the repair of finding F47 (`Generated.C07.cindexInitValidatesRoots`): a loaded root whose block
+cannot be read or is empty (`usable r = false`: the tree file is missing, cut or zero-filled) is forgotten, so the chunk
+takes the "no index → rebuild" path instead of reading blocks that get re-allocated to other trees -/
+def forgetUnusableRoots (usable : Nat → Bool) (m : CMap) : CMap :=
+  if Logrange.Generated.C07.cindexInitValidatesRoots then
+    m.map (fun e => (e.1, e.2.map (fun ci => if ci.root ≠ 0 ∧ usable ci.root = false then { ci with root := 0 } else ci)))
+  else m
+
 /-- `chkInfo.update` -/
 def ChkInfo.update (ci : ChkInfo) (mn mx : Int) : ChkInfo :=
   { ci with minTs := if ci.minTs > mn then mn else ci.minTs, maxTs := if ci.maxTs < mx then mx else ci.maxTs }
